@@ -1,6 +1,7 @@
 package gofakes3
 
 import (
+	"context"
 	"encoding/base64"
 	"encoding/hex"
 	"encoding/xml"
@@ -128,7 +129,7 @@ func (g *GoFakeS3) hostBucketMiddleware(handler http.Handler) http.Handler {
 		}
 		g.log.Print(LogInfo, p, "=>", rq.URL)
 
-		handler.ServeHTTP(w, rq)
+		handler.ServeHTTP(w, withHostBucketRequest(rq))
 	})
 }
 
@@ -167,8 +168,25 @@ func (g *GoFakeS3) hostBucketBaseMiddleware(handler http.Handler) http.Handler {
 		}
 		g.log.Print(LogInfo, p, "=>", rq.URL)
 
-		handler.ServeHTTP(w, rq)
+		handler.ServeHTTP(w, withHostBucketRequest(rq))
 	})
+}
+
+// hostBucketRequestKey marks a request whose bucket was taken from its Host
+// header by one of the middlewares above.
+type hostBucketRequestKey struct{}
+
+func withHostBucketRequest(rq *http.Request) *http.Request {
+	return rq.WithContext(context.WithValue(rq.Context(), hostBucketRequestKey{}, true))
+}
+
+// isHostBucketRequest reports whether the request was addressed
+// VirtualHost-style, i.e. whether URLs handed back to the client have to leave
+// the bucket out of the path. Requests that fall back to path-style while
+// WithHostBucketBase is in effect are not.
+func isHostBucketRequest(rq *http.Request) bool {
+	marked, _ := rq.Context().Value(hostBucketRequestKey{}).(bool)
+	return marked
 }
 
 func (g *GoFakeS3) httpError(w http.ResponseWriter, r *http.Request, err error) {
@@ -999,7 +1017,7 @@ func (g *GoFakeS3) completeMultipartUpload(bucket, object string, uploadID Uploa
 	}
 
 	var location string
-	if g.hostBucket {
+	if isHostBucketRequest(r) {
 		location = fmt.Sprintf("%s://%s/%s", protocol, r.Host, object)
 	} else {
 		location = fmt.Sprintf("%s://%s/%s/%s", protocol, r.Host, bucket, object)
